@@ -29,7 +29,7 @@ fn opt_ts(v: &Value) -> Option<Timestamp> {
         None
     } else {
         let d = Duration::new(a[0].as_u64().unwrap(), a[1].as_u64().unwrap() as u32);
-        Some(Timestamp::from_unix(d).unwrap_or_else(|| tool_error("instant out of range")))
+        Some(Timestamp::from_unix(d).unwrap_or_else(|| panic!("from_unix rejects an instant in range")))
     }
 }
 
